@@ -453,10 +453,17 @@ def ob_parser_tables(ctx, res):
             if mm:
                 got1[a["pat"]["lit"]["v"]] = mm.group(1)
     tp = ctx.ast.fn(A, "try_parse")
+    via_helper = False
     got2 = {}
     for a in walk_no_nested_fn(tp.body):
         if a.k == "arm" and a["pat"].k == "p_lit" and a["pat"]["lit"]["t"] == "str":
             mm = re.search(r"FieldType::Declaration\(DeclarationType::(\w+)", up(a["body"]))
+            if not mm:
+                # the arm hands the declaration type to a helper: exactly one DeclarationType named in the arm
+                alls = set(re.findall(r"DeclarationType::(\w+)", up(a["body"])))
+                if len(alls) == 1:
+                    got2[a["pat"]["lit"]["v"]] = alls.pop()
+                    via_helper = True
             if mm:
                 got2[a["pat"]["lit"]["v"]] = mm.group(1)
     for nm, got, f in (("parse_declaration", got1, pd), ("FieldType::try_parse", got2, tp)):
